@@ -107,13 +107,11 @@ func (r *MMapReader) SeekNext(offset uint64) (uint64, []byte, error) {
 			trialOffset := uint64(next) + uint64(i)
 			record, err := r.ReadNextAt(trialOffset)
 			if err != nil {
-				if errors.Is(err, HeaderChecksumMismatchErr) || errors.Is(err, MagicNumberMismatchErr) || errors.Is(err, io.EOF) {
-					// try to seek again, the record couldn't be read fully
-					i = ix
-					continue
-				}
-
-				return 0, nil, err
+				// The marker bytes can also occur inside a payload. Whatever makes the trial read fail there
+				// (checksum or magic mismatch, a header or payload cut by the end of the file, an overlong varint)
+				// only means no record starts at this position, so we keep seeking.
+				i = ix
+				continue
 			} else {
 				return trialOffset, record, nil
 			}
